@@ -445,6 +445,10 @@ func (t *termer) callTerm(c *ssa.Call, idx int) string {
 		return t.Term(cm.Args[0])
 	case "strconv.FormatInt":
 		return "fmt" + t.scalar(cm.Args[1]) + "(" + t.Term(cm.Args[0]) + ")"
+	case "strconv.Itoa":
+		return "fmt10(" + t.Term(cm.Args[0]) + ")"
+	case "strconv.AppendInt":
+		return catTerms([]string{t.Term(cm.Args[0]), "fmt" + t.scalar(cm.Args[2]) + "(" + t.Term(cm.Args[1]) + ")"})
 	case "crypto/sha256.Sum256":
 		return "sha256{" + t.Term(cm.Args[0]) + "}"
 	case "crypto/sha512.Sum512":
